@@ -212,6 +212,12 @@ def bounded(chk):
         for k in range(1, maxargs + 1):
             for combo in itertools.product(SHAPES if k < 3 else SHAPES[:6], repeat=k):
                 cases.append("{{" + nm + sep + "|".join(combo) + "}}")
+    # functions with their own code table: every code of the table, alone and behind the 'xr' prefix
+    from mwlib.parser.templ import magic_time
+    for code in sorted(magic_time.CODENAMES):
+        for date in ("", "2001-01-01", "5000", "0", "99999", "9999-12-31", "12:00", "-1"):
+            for fmt in (code, "xr" + code):
+                cases.append("{{#time:" + fmt + ("|" + date if date else "") + "}}")
     # template universes with cycles are part of the thorough tier only
     failures = []
     with ProcessPoolExecutor(max_workers=12) as pool:
@@ -232,6 +238,7 @@ def run(chk):
     p2_arity(chk)
     p3_expr_resources(chk)
     p4_recursion_transparency(chk)
+    p5_time_postprocessor(chk)
     bounded(chk)
     chk.assumptions += [
         "Node.flatten implementations (nodes.pyx) satisfy the callee contract used for flatten's proof: they change recursion_count only through nested flatten calls",
@@ -426,3 +433,54 @@ def replay_cycle(fname):
         return {"templates": {"Loop": "{{%s: 1 | {{loop}} | x }}{{%s: 0 | y | {{loop}} }}" % (name, name)}, "page": "a{{loop}}b",
                 "problem": "does not unwind to 'ab' within 6 s cpu" if r.returncode < 0 or r.returncode > 3 else "wrong output"}, True
     return None, False
+
+
+# ---------------------------------------------------------------------------- P5 #time: a format code's post-processor cannot abort the expansion
+MTIME = "mwlib/parser/templ/magic_time.py"
+
+
+def p5_time_postprocessor(chk):
+    """_format_and_process_date applies `process_next` (the 'xr' roman-numeral conversion) to the text a
+    format code produced, under `suppress(...)`.  Contract (C03: faulty input is reported inline, never by
+    aborting): for any text produced by a format code the call returns."""
+    import roman
+    from pyvc.values import Closure, ExcClass, ExcVal
+    from pyvc.interp import SymRaise
+    ex = Explorer()
+    fn = ex.function(MTIME, "_format_and_process_date")
+    mro = [c.__name__ for c in roman.OutOfRangeError.__mro__ if c is not object]
+
+    def to_roman(I, n):
+        """contract of roman.toRoman (library, read from its source): int in 0..4999 -> numeral, otherwise
+        OutOfRangeError - whose base classes are taken from the installed module"""
+        t = I._int_term(n)
+        if I.decide(z3.And(t >= 0, t <= 4999)):
+            return I.fresh_str("numeral")
+        raise SymRaise(ExcVal(ExcClass("OutOfRangeError", mro), ["number out of range (must be 0..4999)"]))
+    ex.models["roman.toRoman"] = Model("roman.toRoman", to_roman)
+    for cname in ("RomanError", "OutOfRangeError", "NotIntegerError", "InvalidRomanNumeralError"):
+        c = getattr(roman, cname, None)
+        if c is not None:
+            ex.models["roman." + cname] = ExcClass(cname, [k.__name__ for k in c.__mro__ if k is not object])
+    ex.inline_all = True
+
+    def harness(I):
+        codes = I.module_global(fn.module, "CODENAMES")
+        xr = codes["xr"][1]
+        res = I.fresh_str("text_of_the_next_format_code")
+        I.inputs["text"] = res.z
+        fmt = Model("a format code", lambda I2, d: res)
+        tmp = []
+        out = ex.run_function(I, fn, [fmt, PObj("date", {}), tmp, xr])
+        I.oblige("returns_for_every_text_the_next_code_produces" if out.returned else f"returns_for_every_text_the_next_code_produces[{out.exc!r}]", out.returned)
+        if out.returned:
+            I.oblige("exactly_one_piece_appended", len(tmp) == 1)
+    chk.prove("magic_time._format_and_process_date[xr]", harness, ex, targets=[fn], replay=replay_time)
+
+
+def replay_time(model, obligation):
+    for txt in ("{{#time:xrY|5000}}", "{{#time:xrU|2001-01-01}}", "{{#time:xrY|9999-01-01}}", "{{#time:xrj|2001-01-01}}", "{{#time:xrz|2001-01-01}}"):
+        w, bad = replay_magic(txt[2:-2])
+        if bad:
+            return True, w, "time_postprocessor"
+    return False, {"cases": 5}, None
